@@ -160,6 +160,8 @@ class Built:
 
     def _const(self, s):
         v = copy.deepcopy(s["v"])
+        if s.get("as") == "tuple":
+            v = tuple(v)
         # both spellings of a constant expression
         return labrea.Value(v) if len(repr(v)) % 2 else labrea.types.Evaluatable.unit(v)
 
